@@ -34,7 +34,10 @@ type CallCase struct {
 	Builtins int `json:"builtins,omitempty"`
 }
 
-var builtinRenames = []struct{ re *regexp.Regexp; to string }{
+var builtinRenames = []struct {
+	re *regexp.Regexp
+	to string
+}{
 	{regexp.MustCompile(`\brec\(`), "num("},
 	{regexp.MustCompile(`\bsetg\(`), "json("},
 	{regexp.MustCompile(`\bviaother\(`), "printf("},
